@@ -1,4 +1,212 @@
-import TensorModel.Run
-/-! C18 — property theorems. -/
+/-
+  C18 — "Goroutines that operate on disjoint tensors, or that only read tensors they share, never
+  race on the shared tensors or on library-internal state, and each obtains exactly the result it
+  would obtain running alone, under every interleaving."
+
+  Check:  (cd /verif/lean && lake build TensorModel.Props.C18)
+
+  Lean carries the *logic* of the claim, over the interleaving semantics of `TensorModel.Conc`
+  (threads = deterministic sequential programs over abstract locations; schedules = `List Nat`):
+
+  * `conflictFreeB_sound`       the executable footprint checker implies `conflictFree`;
+  * `interleave_deterministic`  conflict-free threads, EVERY complete schedule: every thread's result
+                                is its solo result, and the final memory is that of running the
+                                threads one after another, in any order (any number of threads, any
+                                program length);
+  * `no_race`                   no configuration reachable under any schedule has a data race;
+  * `readonly_sharing_ok`       the property's own hypothesis (write only what you own, read what
+                                you own or what nobody writes) implies conflict-freedom;
+                                `disjoint_ok` is the special case without sharing, and
+                                `c18` puts the pieces together;
+  * `write_sharing_breaks`      the converse witness: one writer on a shared location suffices to
+                                make a reader's result schedule-dependent.
+
+  The runtime half (the implementation's accesses *are* such footprints; the synchronised pools are
+  race-free under the Go memory model) is the business of the race-detector harness, not of Lean.
+-/
+import TensorModel.Proofs.Conc
 namespace TM.C18
+open TM.Conc
+
+/-- the Bool checker on static footprints is sound -/
+theorem conflictFreeB_sound (ps : List (List Action)) (h : conflictFreeB ps = true) :
+    conflictFree ps :=
+  conflictFree_of_pairwise (conflictFreeB_pairwise ps h)
+
+/-- Conflict-free threads: under EVERY complete schedule `σ`
+    (1) each thread's result is the result it gets when run alone from the same initial memory;
+    (2) the final memory is the memory after running the threads sequentially one after another;
+    (3) … in any order. -/
+theorem interleave_deterministic (ps : List (List Action)) (m0 : Mem) (σ : List Nat)
+    (hcf : conflictFree ps) (hσ : Complete σ (init ps m0)) :
+    (∀ i (hi : i < ps.length), result (runSched σ (init ps m0)) i = (solo ps[i] m0).2) ∧
+    (runSched σ (init ps m0)).mem = seqRun ps m0 ∧
+    (∀ ps', ps'.Perm ps → seqRun ps' m0 = seqRun ps m0) := by
+  have hpw := pairwise_of_conflictFree hcf
+  obtain ⟨ha, hb, hc⟩ := run_char σ (init ps m0) (CFc_init m0 hcf) hσ
+  obtain ⟨sb, sc⟩ := seqRun_char ps m0 hpw
+  refine ⟨fun i hi => ?_, ?_, fun ps' hp => seqRun_perm m0 hp hpw⟩
+  · rw [result, ha i, init_prog_lt hi]; rfl
+  · funext l
+    by_cases hw : ∃ i, ∃ hi : i < ps.length, l ∈ writes ps[i]
+    · obtain ⟨i, hi, hl⟩ := hw
+      rw [hb i l (by rw [init_prog_lt hi]; exact hl), init_prog_lt hi,
+        sb ps[i] (List.getElem_mem hi) l hl]; rfl
+    · rw [hc l, sc l]
+      · rfl
+      · intro p hp hl
+        obtain ⟨i, hi, rfl⟩ := List.getElem_of_mem hp
+        exact hw ⟨i, hi, hl⟩
+      · intro i hl
+        by_cases hi : i < ps.length
+        · rw [init_prog_lt hi] at hl; exact hw ⟨i, hi, hl⟩
+        · rw [init_prog_ge (Nat.le_of_not_lt hi)] at hl; cases hl
+
+/-- two complete schedules are indistinguishable -/
+theorem schedule_irrelevant (ps : List (List Action)) (m0 : Mem) (σ τ : List Nat)
+    (hcf : conflictFree ps) (hσ : Complete σ (init ps m0)) (hτ : Complete τ (init ps m0)) :
+    (runSched σ (init ps m0)).mem = (runSched τ (init ps m0)).mem ∧
+    ∀ i, i < ps.length → result (runSched σ (init ps m0)) i = result (runSched τ (init ps m0)) i := by
+  obtain ⟨a, b, _⟩ := interleave_deterministic ps m0 σ hcf hσ
+  obtain ⟨a', b', _⟩ := interleave_deterministic ps m0 τ hcf hτ
+  exact ⟨b.trans b'.symm, fun i hi => (a i hi).trans (a' i hi).symm⟩
+
+/-- complete schedules always exist (so the theorems above are never vacuous) … -/
+theorem complete_exists (ps : List (List Action)) (m0 : Mem) :
+    ∃ σ, Complete σ (init ps m0) :=
+  ⟨seqSched ps, seqSched_complete ps m0⟩
+
+/-- no reachable configuration of conflict-free threads has two threads about to touch the same
+    location with at least one write — under any schedule, complete or not -/
+theorem no_race (ps : List (List Action)) (m0 : Mem) (σ : List Nat) (hcf : conflictFree ps) :
+    ¬ Race (runSched σ (init ps m0)) :=
+  no_race_of_CFc (CFc_run σ _ (CFc_init m0 hcf))
+
+/-- The property's hypothesis in its own words. `owner l = some i`: location `l` belongs to a tensor
+    private to thread `i`; `owner l = none`: `l` belongs to a shared tensor (or to library state)
+    that nobody writes. Threads that write only their own locations and read only their own or the
+    shared read-only ones are conflict-free. -/
+theorem readonly_sharing_ok (ps : List (List Action)) (owner : Loc → Option Nat)
+    (hw : ∀ i (hi : i < ps.length), ∀ l ∈ writes ps[i], owner l = some i)
+    (hr : ∀ i (hi : i < ps.length), ∀ l ∈ reads ps[i], owner l = some i ∨ owner l = none) :
+    conflictFree ps := by
+  intro i j hi hj hij l hl
+  have hi' := hw i hi l hl
+  refine ⟨fun h => ?_, fun h => ?_⟩
+  · have := hw j hj l h
+    rw [hi'] at this; exact hij (Option.some.inj this)
+  · rcases hr j hj l h with h' | h'
+    · rw [hi'] at h'; exact hij (Option.some.inj h')
+    · rw [hi'] at h'; cases h'
+
+/-- threads on disjoint tensors (every access is to a location the thread owns) -/
+theorem disjoint_ok (ps : List (List Action)) (owner : Loc → Option Nat)
+    (hw : ∀ i (hi : i < ps.length), ∀ l ∈ writes ps[i], owner l = some i)
+    (hr : ∀ i (hi : i < ps.length), ∀ l ∈ reads ps[i], owner l = some i) :
+    conflictFree ps :=
+  readonly_sharing_ok ps owner hw (fun i hi l hl => Or.inl (hr i hi l hl))
+
+/-- C18, assembled: disjoint or read-only-shared ⇒ no race, and solo results under every
+    interleaving. -/
+theorem c18 (ps : List (List Action)) (owner : Loc → Option Nat) (m0 : Mem) (σ : List Nat)
+    (hw : ∀ i (hi : i < ps.length), ∀ l ∈ writes ps[i], owner l = some i)
+    (hr : ∀ i (hi : i < ps.length), ∀ l ∈ reads ps[i], owner l = some i ∨ owner l = none) :
+    (∀ τ, ¬ Race (runSched τ (init ps m0))) ∧
+    (Complete σ (init ps m0) →
+      (∀ i (hi : i < ps.length), result (runSched σ (init ps m0)) i = (solo ps[i] m0).2) ∧
+      (runSched σ (init ps m0)).mem = seqRun ps m0) := by
+  have hcf := readonly_sharing_ok ps owner hw hr
+  refine ⟨fun τ => no_race ps m0 τ hcf, fun hσ => ?_⟩
+  obtain ⟨a, b, _⟩ := interleave_deterministic ps m0 σ hcf hσ
+  exact ⟨a, b⟩
+
+/-! ### non-vacuity: a concrete instance meeting the hypotheses
+
+  Two goroutines computing into their own result tensors (buffers 1 and 2) from a shared input
+  tensor (metadata field 0 of tensor 0 and cell 0 of buffer 0), which both only read. -/
+
+def shX : Loc := .tensorField 0 0
+def shC : Loc := .cell 0 0
+
+def okThreads : List (List Action) :=
+  [ [.read shX, .read shC, .write (.cell 1 0) (fun tr => tr.foldl (· + ·) 0)],
+    [.read shC, .write (.cell 2 0) (fun tr => 2 * tr.foldl (· + ·) 0), .read (.cell 2 0)] ]
+
+def okOwner : Loc → Option Nat
+  | .cell 1 _ => some 0
+  | .cell 2 _ => some 1
+  | _ => none
+
+def okMem : Mem := fun l => if l = shX then 3 else if l = shC then 4 else 0
+
+example : conflictFreeB okThreads = true := by decide
+
+example : (∀ i (hi : i < okThreads.length), ∀ l ∈ writes okThreads[i], okOwner l = some i) ∧
+    (∀ i (hi : i < okThreads.length), ∀ l ∈ reads okThreads[i],
+        okOwner l = some i ∨ okOwner l = none) := by
+  refine ⟨fun i hi => ?_, fun i hi => ?_⟩
+  · match i, hi with
+    | 0, _ => simp [okThreads, writes, okOwner]
+    | 1, _ => simp [okThreads, writes, okOwner]
+  · match i, hi with
+    | 0, _ => simp [okThreads, reads, okOwner, shX, shC]
+    | 1, _ => simp [okThreads, reads, okOwner, shX, shC]
+
+/-- an interleaved complete schedule of `okThreads` … -/
+theorem okSched_complete : Complete [1, 0, 1, 0, 0, 1] (init okThreads okMem) := by
+  intro i
+  match i with
+  | 0 => rfl
+  | 1 => rfl
+  | _ + 2 => rfl
+
+/-- … on which the results are indeed the solo ones (what the theorem predicts, evaluated) -/
+example : result (runSched [1, 0, 1, 0, 0, 1] (init okThreads okMem)) 0 = [3, 4] ∧
+    result (runSched [1, 0, 1, 0, 0, 1] (init okThreads okMem)) 1 = [4, 8] ∧
+    (solo okThreads[0] okMem).2 = [3, 4] ∧ (solo okThreads[1] okMem).2 = [4, 8] := by decide
+
+/-! ### the converse: write-sharing breaks it
+
+  Shape of the known defect "`Dot(vector, matrix)` transposes and un-transposes the caller's shared
+  matrix" (`b.T(); defer b.UT()` in the vector·matrix path): goroutine 0, which was only supposed to
+  *read* the shared matrix, temporarily rewrites one of its metadata fields (`shX`: 0 → 1 → 0) and
+  restores it; goroutine 1 reads that field. Sequentially nothing is visible (the field is
+  restored), but a schedule that runs the read between the two writes gives goroutine 1 a result it
+  could never obtain alone. -/
+
+def badThreads : List (List Action) :=
+  [ [.write shX (fun _ => 1), .write shX (fun _ => 0)],   -- b.T() … b.UT()
+    [.read shX] ]                                          -- another goroutine using b
+
+def zeroMem : Mem := fun _ => 0
+
+theorem write_sharing_breaks :
+    conflictFreeB badThreads = false ∧
+    Complete [0, 0, 1] (init badThreads zeroMem) ∧ Complete [0, 1, 0] (init badThreads zeroMem) ∧
+    result (runSched [0, 0, 1] (init badThreads zeroMem)) 1 = [0] ∧
+    result (runSched [0, 1, 0] (init badThreads zeroMem)) 1 = [1] ∧
+    (solo badThreads[1] zeroMem).2 = [0] ∧
+    Race (init badThreads zeroMem) := by
+  refine ⟨by decide, ?_, ?_, by decide, by decide, by decide, ?_⟩
+  · intro i
+    match i with
+    | 0 => rfl
+    | 1 => rfl
+    | _ + 2 => rfl
+  · intro i
+    match i with
+    | 0 => rfl
+    | 1 => rfl
+    | _ + 2 => rfl
+  · exact ⟨0, 1, shX, true, false, by decide, rfl, rfl, Or.inl rfl⟩
+
+/-- hence the conflict-freedom hypothesis of `interleave_deterministic` cannot be dropped -/
+theorem interleave_needs_conflictFree :
+    ¬ (∀ (ps : List (List Action)) (m0 : Mem) (σ : List Nat), Complete σ (init ps m0) →
+        ∀ i (hi : i < ps.length), result (runSched σ (init ps m0)) i = (solo ps[i] m0).2) := by
+  intro h
+  have := h badThreads zeroMem [0, 1, 0] write_sharing_breaks.2.2.1 1 (by decide)
+  rw [write_sharing_breaks.2.2.2.2.1, write_sharing_breaks.2.2.2.2.2.1] at this
+  exact absurd this (by decide)
+
 end TM.C18
